@@ -26,6 +26,8 @@ int g_nbool, g_nint, g_nreal;                  /* the enum counts, for the loop 
 _Static_assert(N_BOOLPARAM <= NTAB && N_INTPARAM <= NTAB && N_REALPARAM <= NTAB, "match tables too small");
 const char* gp_src; int g_srclen;
 
+/* `throw` inside a stub: see CONV_THROW in unit.cpp (followed by an unreachable marker) */
+void verif_throw(void) {}
 unsigned long nondet_ul(void);
 long nondet_l(void);
 char nondet_c(void);
